@@ -1,11 +1,55 @@
 //! Engine E2 `store-mon`: monitors over the real on-chain programs executed in `hostsvm`,
 //! plus direct monitors on program state types.
+#![allow(clippy::too_many_arguments)]
 pub mod world;
+
+mod c17;
+mod c18;
+mod c19;
+mod c20;
+mod c21;
+mod c22;
+mod c23;
+mod c24;
+mod c25;
+mod c29;
+mod c30;
+mod c32;
+mod c33;
+mod c35;
+mod c36;
+mod c37;
+mod c38;
+mod c39;
+mod c44;
+mod c45;
+mod c09;
 
 fn main() {
     let args = vcommon::Args::parse();
     let code: Option<i32> = match args.id.as_str() {
         "smoke" => Some(world::smoke()),
+        "C17" => c17::run(&args),
+        "C18" => c18::run(&args),
+        "C19" => c19::run(&args),
+        "C20" => c20::run(&args),
+        "C21" => c21::run(&args),
+        "C22" => c22::run(&args),
+        "C23" => c23::run(&args),
+        "C24" => c24::run(&args),
+        "C25" => c25::run(&args),
+        "C29" => c29::run(&args),
+        "C30" => c30::run(&args),
+        "C32" => c32::run(&args),
+        "C33" => c33::run(&args),
+        "C35" => c35::run(&args),
+        "C36" => c36::run(&args),
+        "C37" => c37::run(&args),
+        "C38" => c38::run(&args),
+        "C39" => c39::run(&args),
+        "C44" => c44::run(&args),
+        "C45" => c45::run(&args),
+        "C09" => c09::run(&args),
         _ => None,
     };
     match code {
